@@ -7,7 +7,7 @@ From CGV Require Import Base.PyBase Base.PyVal Base.NxGraph Resolve.Bonding Reso
      Resolve.GraphOps Hydro.SquashDefs Hydro.HydroDefs.
 From CGV Require Hydro.Hydrogens Hydro.Squash.
 From CGV Require Import Compose.GraphAdj Compose.CutModel Compose.CutPos Compose.CutTables Compose.CutDisc Compose.CutSkeleton Compose.CutWf
-     Compose.CutHydrogens Compose.ComposeFlat Compose.CutSpecCheck Compose.RebuildWf Compose.CutSorted Compose.CutRunCheck Compose.CutRunSound Compose.SortIdentity Compose.LayeredStep Compose.Levels Compose.PartPerm Compose.Completion Compose.RelabelEdges Compose.CutIso Compose.OrderIndep Compose.ReturnedIso.
+     Compose.CutHydrogens Compose.ComposeFlat Compose.CutSpecCheck Compose.RebuildWf Compose.CutSorted Compose.CutRunCheck Compose.CutRunSound Compose.SortIdentity Compose.LayeredStep Compose.Levels Compose.PartPerm Compose.Completion Compose.RelabelEdges Compose.CutIso Compose.OrderIndep Compose.ReturnedIso Compose.LevelsIso.
 Import ListNotations.
 Open Scope Z_scope.
 
@@ -97,6 +97,7 @@ Definition C01_all_atom_step_inv := all_atom_step_inv.
 Definition C01_returned_graphs_iso := returned_graphs_iso.
 Definition C01_base_order_returned := base_order_returned.
 Definition C06_layered_flat_resolve_iso := layered_flat_resolve_iso.
+Definition C06_compose_levels_resolve_iso := compose_levels_resolve_iso.
 Definition C01_pperm_wf := pperm_wf.
 
 (** the executable tests of the hypotheses are sound *)
@@ -128,6 +129,7 @@ Print Assumptions C06_layered_flat_returned_iso.
 Print Assumptions C01_sorted_iso.
 Print Assumptions C01_base_order_returned.
 Print Assumptions C06_layered_flat_resolve_iso.
+Print Assumptions C06_compose_levels_resolve_iso.
 Print Assumptions C12_sort_edge_get.
 Print Assumptions C06_compose_levels_all_atom.
 Print Assumptions C06_compose_flat_returned.
